@@ -247,6 +247,48 @@ theorem wallet_validate_ok (cfg : Cfg) (P : Crypto) (E : Env) (created : Time) (
     | err e => rw [hr] at h; cases h
     | panic s => rw [hr] at h; cases h
 
+/-- The network-ingest path: whatever `StoreCredential` adds to the store had its signature verified (all signature conjuncts of
+    `valid_only_if`, at the ingest time), whoever the issuer is and whatever the node knows about the id; a credential arriving
+    under an id that is already stored never replaces the stored one.  So what `Resolve` later reports valid (without checking the
+    signature again) is a document whose signature verified over exactly its stored content. -/
+theorem stored_credentials_were_signature_checked (cfg : Cfg) (P : Crypto) (E : Env) (validAt : Option Time) (store store' : List Cred)
+    (c : Cred) (h : storeCredential cfg P E validAt store c = .ok store') :
+    (store' = store ∨ (store' = c :: store ∧ SigValid cfg P E validAt c)) ∧
+    (∀ x ∈ store, x ∈ store') := by
+  unfold storeCredential at h
+  split at h
+  · split at h
+    · cases h; exact ⟨Or.inl rfl, fun x hx => hx⟩
+    · cases h
+  · cases hr : runChecks (signatureChecks cfg P E validAt c) c with
+    | ok u =>
+      rw [hr] at h; cases h
+      exact ⟨Or.inr ⟨rfl, signatureChecks_ok_iff.mp (by rw [hr])⟩, fun x hx => List.mem_cons_of_mem _ hx⟩
+    | err e => rw [hr] at h; cases h
+    | panic s => rw [hr] at h; cases h
+
+/-- a store built by `StoreCredential` calls only: every element satisfied SigValid at its ingest time -/
+theorem resolve_reports_only_signature_checked (cfg : Cfg) (P : Crypto) (E : Env) (t : Option Time) (store : List Cred) (id : String) (c : Cred)
+    (Checked : Cred → Prop) (hstore : ∀ x ∈ store, Checked x)
+    (h : resolveStored cfg P E t store id = some c) :
+    Checked c ∧ c.id = some id ∧ verify cfg P E false false t c = .ok () := by
+  unfold resolveStored at h
+  cases hf : store.find? (fun x => x.id == some id) with
+  | none => simp [hf] at h
+  | some x =>
+    simp only [hf, Option.filter] at h
+    split at h
+    · rename_i hok
+      cases h
+      have hm := List.mem_of_find?_eq_some hf
+      have hid := List.find?_some hf
+      refine ⟨hstore _ hm, by simpa using hid, ?_⟩
+      cases hv : verify cfg P E false false t c with
+      | ok u => rfl
+      | err e => rw [hv] at hok; cases hok
+      | panic s => rw [hv] at hok; cases hok
+    · cases h
+
 /-! ## 2c. "has a trusted issuer when trust is required": untrusting is effective for EVERY content of the trust file -/
 
 /-- Whatever list the trust file held for the type — duplicates of the issuer, other issuers in between, any order, the same
@@ -580,6 +622,11 @@ example : resolveKeyByID { exE with resolve := fun _ _ => some { assertion := [(
     resolveKeyByID { exE with resolve := fun _ _ => some { assertion := [("#k", "K1")], base := none } } (some 1) "did:x:i#k" = none := by decide
 -- the JWT algorithm must be the one of the key's curve: ES256 over a P-384 key is rejected even if the signature check passes
 example : verify exCfg { exP with keyKind := fun _ => "P-384" } exE false true (some 2000) exJ = .err "jwt-alg-key" := by decide
+-- network ingest: an altered copy of a stored id is refused and never replaces it; a credential with a bad signature is never stored
+example : storeCredential exCfg exP exE (some 2000) [] exC = .ok [exC] ∧
+    storeCredential exCfg exP exE (some 2000) [exC] { exC with issued := 1500 } = .err "exists-with-different-content" ∧
+    storeCredential exCfg exP exE (some 2000) [] { exC with issued := 1500 } = .err "bad-signature" ∧
+    resolveStored exCfg exP exE (some 2000) [exC] "did:x:i#1" = some exC := by decide
 -- tamper_evident: its hypotheses are satisfiable together.  Crypto in which exactly ONE (key, message, signature) triple
 -- verifies (so unforgeability holds with `Signed k m := m = exM0`); c' = the signed credential with another issuance date.
 example : ∃ (Signed : Key → Bytes → Prop) (c' : Cred),
@@ -881,6 +928,10 @@ theorem fact_verifier_is_stateless :
     Nuts.Facts.C01.verifierFields = ["verifier.didResolver resolver.DIDResolver", "verifier.keyResolver resolver.KeyResolver", "verifier.jsonldManager jsonld.JSONLD", "verifier.store Store", "verifier.trustConfig *trust.Config", "verifier.<embedded> signatureVerifier", "verifier.credentialStatus revocation.StatusList2021Verifier", "signatureVerifier.keyResolver resolver.KeyResolver", "signatureVerifier.jsonldManager jsonld.JSONLD"] ∧
     Nuts.Facts.C01.resolveSigningKeyReturns = [" => sv.keyResolver.ResolveKeyByID(kid,metadata,resolver.NutsSigningKeyType)"] := by
   refine ⟨by rfl, by rfl⟩
+/-- StoreCredential's `VerifySignature(credential, validAt)` is a top-level statement: no condition (issuer, id known to the node, …)
+    can skip it (see also `storeCredentialReturns` in fact_wiring) -/
+theorem fact_store_credential_always_verifies_the_signature :
+    Nuts.Facts.C01.storeCredentialVerifiesSignatureUnconditionally = true := by decide
 theorem fact_max_skew : Nuts.Facts.C01.maxSkewMs = 5000 := by decide
 theorem fact_supported_algs : Nuts.Facts.C01.supportedAlgs = ["ES256", "EdDSA", "ES384", "ES512", "PS256", "PS384", "PS512"] := by decide
 theorem fact_signing_key_relation : Nuts.Facts.C01.signingKeyRelation = "AssertionMethod" := by decide
